@@ -37,6 +37,7 @@ class Path:
         self.counter = 0
         self.hints = []          # extra ground facts (lemma instances) valid on this path
         self.warn_log = []       # ghost: warnings issued
+        self.temp_guards = []    # assumptions in force only while a guarded sub-expression of a spec is evaluated
         self.events = None       # ghost: list of the objects whose `emits` contracts were called, in order (lazily created)
         self.events0 = None      # its value at the entry of the function under verification / of the call being applied
         self.yielded = None      # ghost list of yielded values (set by generator verification)
@@ -47,10 +48,13 @@ class Path:
         self.counter += 1
         return f"{base}!{self.counter}"
 
-    def _feasible(self, cond):
+    def _feasible(self, cond, ignore_temp=False):
         s = z3.Solver()
         s.set('timeout', FEAS_TIMEOUT_MS)
-        s.add(*self.pc)
+        if ignore_temp and self.temp_guards:
+            s.add(*[c for c in self.pc if not any(c is g for g in self.temp_guards)])
+        else:
+            s.add(*self.pc)
         s.add(cond)
         r = s.check()
         return r != z3.unsat
@@ -64,9 +68,13 @@ class Path:
                 # recorded dead end (no feasible option when this point was first explored): same outcome on replay
                 raise PathEnd('no feasible branch')
         else:
+            # a decision is a case split of the PATH: options are judged without the temporary guards of the spec
+            # sub-expression being evaluated, so that an option that is impossible only under such a guard is still
+            # explored (on that path the guarded sub-expression is vacuous) and the decision may stay on the path
+            # unconditionally after the guard is dropped
             feas = []
             for i in range(n):
-                if conds is None or self._feasible(conds[i]):
+                if conds is None or self._feasible(conds[i], ignore_temp=True):
                     feas.append(i)
             if not feas:
                 self.trace.append(-1)
@@ -95,6 +103,23 @@ class Path:
 
     def oblige(self, name, goal, note=''):
         self.obligations.append(Obligation(name, self.pc, goal, hints=self.hints, note=note))
+
+
+def push_guard(path, g):
+    path.pc.append(g)
+    path.temp_guards.append(g)
+
+
+def pop_guard(path, g):
+    """remove the temporary assumption g (pushed with push_guard while a guarded sub-expression of a spec was
+    evaluated).  Decisions taken meanwhile stay on the path: Path.branch judged their alternatives WITHOUT the
+    temporary guards, so each is a complete case split of the path itself."""
+    idx = max(i for i, c in enumerate(path.pc) if c is g)
+    del path.pc[idx]
+    for k_, t_ in enumerate(path.temp_guards):
+        if t_ is g:
+            del path.temp_guards[k_]
+            break
 
 
 def is_num(sv):
@@ -723,12 +748,11 @@ class Interp:
                     ts.append(t)
                     guard = t if is_and else z3.Not(t)
                     if not (z3.is_true(guard)):
-                        self.path.pc.append(guard)
+                        push_guard(self.path, guard)
                         pushed.append(guard)
             finally:
                 for g in reversed(pushed):
-                    idx = max(i for i, c in enumerate(self.path.pc) if c is g)
-                    del self.path.pc[idx]
+                    pop_guard(self.path, g)
             return mk_bool(z3.And(*ts) if is_and else z3.Or(*ts))
         last = None
         for i, vnode in enumerate(node.values):
